@@ -409,3 +409,80 @@ func checkCloseOwners(c *Ctx) {
 		c.check(n >= 1, rule, name+"/requests-own-shutdown-once", c.P.fnPos(fn), "", name+" does not request the shutdown of its own lifecycle exactly once on every path: closing it would not stop it")
 	}
 }
+
+// checkRootForwarders: the thin API methods of the root package forward to
+// the same-named method of the right field with their own arguments, or
+// return the right field.
+func checkRootForwarders(c *Ctx) {
+	rule := "T-FLOW(forwarders)"
+	fwd := [][3]string{
+		{"controller.Subscribe", "publisher", "Subscribe"}, {"controller.SubscribeWithFilter", "publisher", "SubscribeWithFilter"}, {"controller.SubscribeForFilter", "publisher", "SubscribeForFilter"},
+		{"controller.Clone", "publisher", "Clone"}, {"controller.CloneWithFilter", "publisher", "CloneWithFilter"}, {"controller.CloneForFilter", "publisher", "CloneForFilter"},
+		{"filterController.Subscribe", "parent", "Subscribe"}, {"filterController.SubscribeWithFilter", "parent", "SubscribeWithFilter"}, {"filterController.SubscribeForFilter", "parent", "SubscribeForFilter"},
+		{"filterController.Clone", "parent", "Clone"}, {"filterController.CloneWithFilter", "parent", "CloneWithFilter"}, {"filterController.CloneForFilter", "parent", "CloneForFilter"},
+		{"filterController.Cache", "parent", "Cache"}, {"filterController.Ready", "parent", "Ready"}, {"filterController.Done", "parent", "Done"}, {"filterController.Error", "parent", "Error"},
+		{"publisher.Cache", "parent", "Cache"}, {"publisher.Ready", "parent", "Ready"},
+	}
+	for _, f := range fwd {
+		fn := c.mustFunc("", f[0])
+		if fn == nil {
+			continue
+		}
+		ps := pathsOf(c, fn)
+		ok := len(ps) == 1
+		if ok {
+			n := 0
+			for _, e := range ps[0].Effects {
+				if e.Kind == "invoke" {
+					p, okp := e.Recv.FieldPath()
+					if e.Method == f[2] && okp && strings.HasSuffix(p, "."+f[1]) {
+						n++
+						for k, a := range e.Args {
+							if !(a.K == "param" && k+1 < len(fn.Params) && a.S == fn.Params[k+1].Name()) {
+								ok = false
+							}
+						}
+						// the result is returned as is
+						r := ps[0].End.Results
+						switch len(r) {
+						case 1:
+							if !sameTerm(r[0], e.Res) {
+								ok = false
+							}
+						case 2:
+							if !(r[0].K == "extract" && sameTerm(r[0].A[0], e.Res) && r[1].K == "extract" && sameTerm(r[1].A[0], e.Res)) {
+								ok = false
+							}
+						}
+						continue
+					}
+					if !e.IsPure() {
+						ok = false
+					}
+				}
+			}
+			if n != 1 {
+				ok = false
+			}
+		}
+		c.check(ok, rule, f[0]+"/forwards-to-."+f[1]+"."+f[2], c.P.fnPos(fn), "", f[0]+" does not forward exactly to "+f[1]+"."+f[2]+" with its own arguments and return its result")
+	}
+	for _, f := range [][2]string{{"_subscription.Events", "outch"}, {"_subscription.Cache", "cache"}, {"_subscription.Ready", "readych"}, {"_lister.Result", "resultch"}, {"_watchSession.events", "outch"}, {"_ticker.Next", "nextch"}, {"_ticker.Done", "donech"}} {
+		if fn := c.mustFunc("", f[0]); fn != nil {
+			ps := pathsOf(c, fn)
+			ok := len(ps) == 1 && len(ps[0].End.Results) == 1 && ps[0].End.Results[0].IsRecvField(f[1])
+			c.check(ok, rule, f[0]+"/returns-own-"+f[1], c.P.fnPos(fn), "", f[0]+" does not return its own "+f[1])
+		}
+	}
+	for _, f := range [][2]string{{"_cache.Done", "Done"}, {"_cache.Error", "Error"}, {"_lister.Done", "Done"}, {"_lister.Error", "Error"}, {"_watcher.Done", "Done"}, {"_watcher.Error", "Error"}, {"_subscription.Done", "Done"}, {"_subscription.Error", "Error"}, {"publisher.Done", "Done"}, {"publisher.Error", "Error"}, {"filterSubscription.Done", "Done"}, {"_watchSession.done", "Done"}, {"_watchSession.Error", "Error"}} {
+		if fn := c.mustFunc("", f[0]); fn != nil {
+			ps := pathsOf(c, fn)
+			ok := len(ps) == 1 && len(ps[0].End.Results) == 1
+			if ok {
+				r, _, isInv := isInvoke(ps[0].End.Results[0], f[1])
+				ok = isInv && r.IsRecvField("lc")
+			}
+			c.check(ok, rule, f[0]+"/returns-own-lc."+f[1], c.P.fnPos(fn), "", f[0]+" does not return its own lifecycle's "+f[1]+"()")
+		}
+	}
+}
